@@ -124,3 +124,48 @@ def programs_from_histories(hists):
             calls.append(c)
         progs.append({'calls': calls})
     return progs
+
+
+def programs_from_mech_histories(hists):
+    """Behaviours of the mechanism model (spec/MechSim.tla) as programs on the real classes.  The two cache keys are a
+    plain literal and a token string whose meaning depends on options.mxfp_overflow (the model's option);
+    'Bits' / 'BitArray' of the model alternate with the stream classes."""
+    from .enc import enc_float
+    progs = []
+    for n, h in enumerate(hists):
+        calls = []
+        ext = {}
+        cls_of = {}
+        live = set()
+        for i, st in enumerate(h):
+            a = st['a']
+            if a == 'newstr':
+                cls = (['Bits', 'ConstBitStream'] if st['c'] == 'Bits' else ['BitArray', 'BitStream'])[(n + i) % 2]
+                if st['k'] == 'k1':
+                    tk = [{'nm': 'e4m3mxfp', 'n': NONE_I, 'hv': 1, 'val': enc_float([1000.0, -1000.0][n % 2])}]
+                else:
+                    tk = [{'nm': 'lit', 'n': NONE_I, 'hv': 0, 'val': [8, 1, -1, 4, 0, 1, 0, 1]}]
+                calls.append({'op': 'newfmt', 'rid': st['o'], 'sa': [cls, 'fromstring' if st['fs'] else 'ctor'], 'tk': tk, 'ia': [0]})
+                cls_of[st['o']] = cls
+                live.add(st['o'])
+            elif a in ('newobj', 'bitskw'):
+                cls = (['Bits', 'ConstBitStream'] if st['c'] == 'Bits' else ['BitArray', 'BitStream'])[(n + i) % 2]
+                calls.append({'op': 'mk', 'rid': st['o'], 'sa': [cls, 'from_obj' if a == 'newobj' else 'bits_kw'], 'ia': [NONE_I],
+                              'xs': [{'k': 'obj', 'id': st['src']}]})
+                cls_of[st['o']] = cls
+            elif a == 'mutate':
+                calls.append([{'op': 'invert', 't': st['o'], 'sa': ['none'], 'ia': []},
+                              {'op': 'append', 't': st['o'], 'xs': [{'k': 'lit', 'kind': 'bin', 'v': [1]}]},
+                              {'op': 'reverse', 't': st['o'], 'ia': [NONE_I, NONE_I]},
+                              {'op': 'setitem', 't': st['o'], 'ia': [0], 'va': [[2, 0, 1]]}][(n + i) % 4])
+            elif a == 'tobitarray':
+                eid = 'e%d' % len(ext)
+                ext[st['st']] = eid
+                calls.append({'op': 'tobitarray', 't': st['o'], 'rid': eid})
+            elif a == 'heldmutate':
+                if st['st'] in ext:
+                    calls.append({'op': 'extmut', 'sa': [ext[st['st']]], 'ia': [(n + i) % 6]})
+            elif a == 'setopt':
+                calls.append(setopt('mx', 1 if st['b'] else 0))
+        progs.append({'calls': calls})
+    return progs
